@@ -18,7 +18,7 @@
 (* permutations: every run agrees with the run under the canonical (sorted) layout.  Also: every  *)
 (* slot number used at run time is in range, and all closures of one activation share the cell   *)
 (* of a captured variable while activations get fresh ones (visible in the logged values).       *)
-EXTENDS Naturals, Integers, Sequences, FiniteSets, TLC
+EXTENDS Naturals, Integers, Sequences, FiniteSets, TLC, IOUtils
 
 \* ---------------- abstract programs --------------------------------------------------------------------
 \* A program is a table of functions; function 1 is the script's top level function `main`
@@ -131,12 +131,16 @@ Invoke(st, P, L, clo, args, dst) ==
       newcells == [j \in 1..nc |-> loc0[IndexIn(L[f].locals, L[f].cells[j])]]
       frame == [f |-> f, ip |-> 1, locals |-> loc0, cst |-> [j \in 1..nc |-> base + j], clo |-> clo.cells, dst |-> dst]
   IN [st EXCEPT !.cells = @ \o newcells, !.frames = Append(@, frame)]
+\* vacuity self-test (checks/c15.py runs the model once with WIRING=index and expects LayoutIndependent to FAIL):
+\* wiring the cells by position instead of by name is exactly the class of defect the invariant is there to exclude
+ByIndex == "WIRING" \in DOMAIN IOEnv /\ IOEnv.WIRING = "index"
 \* MAKE_CLOSURE in frame fr for child g: each free variable of g is found by NAME in the creator's lists
 MakeClosure(st, L, fr, g) ==
   [t |-> "clo", f |-> g,
    cells |-> [j \in 1..Len(L[g].frees) |->
                 LET x == L[g].frees[j] IN
-                IF InSeq(L[fr.f].cells, x) THEN fr.cst[IndexIn(L[fr.f].cells, x)]
+                IF ByIndex /\ InSeq(L[fr.f].cells, x) THEN fr.cst[IF j <= Len(fr.cst) THEN j ELSE 1]     \* self-test only
+                ELSE IF InSeq(L[fr.f].cells, x) THEN fr.cst[IndexIn(L[fr.f].cells, x)]
                 ELSE IF InSeq(L[fr.f].frees, x) THEN fr.clo[IndexIn(L[fr.f].frees, x)]
                 ELSE 0]]
 Return(st, L, v) ==
@@ -169,7 +173,9 @@ CanonObs == [p \in 1..Len(Programs) |-> Obs(RunToEnd(Start(Programs[p], CanonLay
 \* ---------------- state machine: every layout of every program ---------------------------------------------------------------
 VARIABLES pgm, lay, sst
 svars == <<pgm, lay, sst>>
-SlotsInit == /\ pgm \in 1..Len(Programs)
+\* quick tier: the four programs with up to 2880 layouts each; thorough: also program 3 (34560 layouts)
+ProgSel == IF "TIER" \in DOMAIN IOEnv /\ IOEnv.TIER = "thorough" THEN 1..Len(Programs) ELSE {1, 2, 4, 5}
+SlotsInit == /\ pgm \in ProgSel
              /\ lay \in LayoutSet(Programs[pgm], 1)
              /\ sst = Start(Programs[pgm], lay)
 SlotsNext == ~sst.done /\ sst' = Step(sst, Programs[pgm], lay) /\ UNCHANGED <<pgm, lay>>
